@@ -264,7 +264,7 @@ static void q_hook(const void* obj, char ev, const void* item, size_t a)
 static std::vector<uint8_t> q_packet(uint32_t tag)
 {
   std::vector<uint8_t> b(64);
-  b[0] = 0xA5; b[1] = 0xFF;
+  if (tag & 1) { b[0] = 0xA5; b[1] = 0xFF; } else { b[0] = 0x55; b[1] = 0xAA; }     // both dispatch branches
   b[2] = (uint8_t)(tag >> 24); b[3] = (uint8_t)(tag >> 16); b[4] = (uint8_t)(tag >> 8); b[5] = (uint8_t)tag;
   for (size_t k = 6; k < b.size(); k++) b[k] = (uint8_t)(tag * 31u + k * 7u);
   return b;
